@@ -84,6 +84,16 @@ func terminalCheck(r *kit.Run, sw *SignWorld, cfg SignCfg, k *worldx.Worker, s *
 	}
 }
 
+// failingCfgs: every single participant reports a signing error (within the n-t tolerance) while
+// the others answer correctly: the batch must still be reconstructed.
+func failingCfgs(n, t int, batches []Batch) []SignCfg {
+	var out []SignCfg
+	for f := 0; f < n; f++ {
+		out = append(out, SignCfg{N: n, T: t, Batches: batches, Proposers: []int{0}, Failing: []int{f}, MaxStates: 1500000})
+	}
+	return out
+}
+
 func c07(tier string, args []string) int {
 	r := newRun("C07", tier, "model_checking")
 	r.Assume = []string{
@@ -92,9 +102,9 @@ func c07(tier string, args []string) int {
 		"'aged key' runs repeat the exploration with the clock 8 days after the key generation",
 	}
 	type job struct {
-		n, t  int
-		cfgs  []SignCfg
-		aged  bool
+		n, t int
+		cfgs []SignCfg
+		aged bool
 	}
 	b1 := Batch{ID: "batch-1", Tasks: world.SimpleTasks("b1", []byte("payload one"), []byte{9, 9})}
 	b2 := Batch{ID: "batch-2", Tasks: world.SimpleTasks("b2", []byte("payload two"))}
@@ -115,6 +125,7 @@ func c07(tier string, args []string) int {
 		job{n: 2, t: 2, cfgs: mk(2, 2, two, [][]int{nil, {0}, {1}, {0, 1}}, none)},
 		job{n: 3, t: 2, cfgs: append(mk(3, 2, two, [][]int{nil, {0}, {1}, {2}}, none), mk(3, 2, two, [][]int{nil}, [][]int{{0}, {1}, {2}})...)},
 		job{n: 3, t: 3, cfgs: mk(3, 3, two, [][]int{nil, {1}}, none)},
+		job{n: 3, t: 2, cfgs: failingCfgs(3, 2, two)},
 		job{n: 3, t: 2, cfgs: mk(3, 2, two, [][]int{nil, {2}}, none), aged: true},
 	)
 	if tier == "thorough" {
